@@ -337,6 +337,11 @@ func NewLSM(opt *Options, walMgr *wal.Manager) *LSM {
 	if opt.CompactionValueAlertThreshold <= 0 {
 		opt.CompactionValueAlertThreshold = 0.6
 	}
+	if opt.MemTableSize <= 0 {
+		// A memtable budget of zero can never hold an entry: SetBatch would rotate empty
+		// memtables for ever on the first write. Use the arena default instead.
+		opt.MemTableSize = utils.DefaultArenaSize
+	}
 	lsm := &LSM{option: opt, wal: walMgr}
 	lsm.flushMgr = flush.NewManager()
 	// initialize levelManager
